@@ -88,11 +88,38 @@ func VerifResize() {
 	verifLogU64("fill", uint64(fill))
 	verifLogU64("new max pages", uint64(newMax))
 	disk2 := memFileFrom(s.disk.image(), capacity)
-	opts := Options{MaxSize: uint64(newMax) * verifPageSize, PageSize: verifPageSize, Flags: FlagUpdMaxSize, Prealloc: prealloc}
+	unaligned := uint64(0)
+	if newMax > 0 && verifBool("unaligned") {
+		unaligned = 100 // a limit that is not a multiple of the page size is rounded down
+	}
+	opts := Options{MaxSize: uint64(newMax)*verifPageSize + unaligned, PageSize: verifPageSize, Flags: FlagUpdMaxSize, Prealloc: prealloc}
 	if newMax == 0 {
 		opts.Flags |= FlagUnboundMaxSize
 	}
+	// optionally an I/O failure while the limit is updated (the optional second,
+	// page-releasing transaction of a shrink is allowed to fail)
+	if fk := verifChoose(3); fk > 0 {
+		kind := []int{faultNone, faultWrite, faultSync}[fk]
+		disk2.faultKind, disk2.faultOrd, disk2.faultBurst = kind, verifChoose(verifParam("resizefaults", 3)), 1
+		verifLogU64("fault kind during the resize", uint64(kind))
+		verifLogU64("fault ordinal", uint64(disk2.faultOrd))
+	}
 	f2, err2 := openWith(disk2, opts)
+	disk2.faultKind = faultNone
+	if verifKnown("D15", disk2.finalSyncFailed) {
+		verifLog("the final sync of a header update failed during the resize (known finding D15)")
+	}
+	if disk2.nfaults > 0 && err2 != nil {
+		// the update failed: the file must still open with its data intact and report one of the two limits
+		disk3 := memFileFrom(disk2.image(), capacity)
+		f3, err3 := openWith(disk3, Options{PageSize: verifPageSize})
+		verifAssert(err3 == nil, "after a failed limit update the file can still be opened")
+		verifAssert(f3.allocator.maxPages == newMax || f3.allocator.maxPages == oldMax, "and reports the old or the new limit")
+		s.disk, s.f = disk3, f3
+		s.checkCommitted("after a failed limit update")
+		verifReach("end")
+		return
+	}
 	verifAssert(err2 == nil, "opening with a new maximum size succeeds")
 	f2.reportOpen()
 	s.disk, s.f = disk2, f2
@@ -109,6 +136,7 @@ func VerifResize() {
 	verifAssert(after.root == before.root, "resizing keeps the root")
 	verifAssert(idsEqual(after.walFrom, before.walFrom) && idsEqual(after.walTo, before.walTo), "resizing keeps the overwrite mapping")
 	verifAssert(f2.allocator.maxPages == newMax, "the new limit is in effect")
+	verifAssert(f2.getMetaPage().maxSize.Get() == uint64(newMax)*verifPageSize, "the active header carries the new limit")
 	if newMax > oldMax {
 		verifAssert(s.availNow() == availBefore+(newMax-oldMax), "after growing exactly the additional pages become allocatable")
 	}
@@ -118,11 +146,14 @@ func VerifResize() {
 
 	// further history: overwrite pages (grows the meta area), allocate what is possible, free, commit
 	limit := maxU(oldExtent, newMax)
-	for round := 0; round < verifParam("rounds", 2); round++ {
+	for round := 0; round < verifParam("rounds", 3); round++ {
 		tx, berr := f2.Begin()
 		verifAssert(berr == nil, "Begin succeeds")
 		w := s.m.clone()
 		nOver := 10
+		if round == 0 {
+			nOver = 1 // a small transaction that fits even when the file is (almost) full
+		}
 		if len(w.pages) < nOver {
 			nOver = len(w.pages)
 		}
@@ -135,7 +166,7 @@ func VerifResize() {
 				rp.b0, rp.b1, rp.last, rp.raw = b0, b1, b1, false
 			}
 		}
-		if round == 1 {
+		if round == 2 {
 			if ps, aerr := tx.AllocN(3); aerr == nil {
 				for _, p := range ps {
 					s.checkOwnership(w, p.ID())
